@@ -720,6 +720,85 @@ func linearizable(sc scenario, evs []event, final string) (bool, string) {
 	return false, strings.Join(tried, " // ")
 }
 
+// challengerProbe: NameChallenger.ChallengeOwnership asks a node over UDP whether it still holds a name (three
+// attempts, two seconds each). It is a reader of the network, not an operation of the table: whatever the node
+// answers - here nobody answers - the table must be what it was, for a live, a lapsed and an absent name, and the
+// owner's later Refresh/Release must behave as without the probe. Runs under the controlled scheduler (simulated
+// UDP, virtual clock), alone and next to a concurrent Query; every schedule up to 2 preemptions.
+func challengerProbe(c *vf.Ctx) {
+	type sc struct {
+		name  string
+		seed  []op
+		probe string
+	}
+	A := "A"
+	scs := []sc{
+		{"live-unique-name", []op{{k: kReg, name: A, typ: nbtns.Unique, addr: 0}}, A},
+		{"lapsed-unique-name-not-yet-swept", []op{{k: kReg, name: A, typ: nbtns.Unique, addr: 0, past: true}}, A},
+		{"lapsed-group", []op{{k: kReg, name: A, typ: nbtns.Group, addr: 0, past: true}, {k: kReg, name: A, typ: nbtns.Group, addr: 2, past: true}}, A},
+		{"absent-name", nil, "B"},
+	}
+	for _, s := range scs {
+		for _, withReader := range []bool{false, true} {
+			s, withReader := s, withReader
+			ex := &explore.Explorer{Bound: 2, Cap: 20000, Stop: c.DeadlineExceeded, Tolerant: true, Retries: 16}
+			ex.Body = func(r *explore.Run) {
+				ch := &chooser{r: r}
+				var before, after, ctl, probed string
+				var follow, followCtl []string
+				out := vrt.Run(ch, 20000, 0, false, func() {
+					t, u := nbtns.NewNetBIOSNameServer(false), nbtns.NewNetBIOSNameServer(false)
+					for _, o := range s.seed {
+						apply(t, o)
+						apply(u, o)
+					}
+					before = dump(t)
+					var rd *vrt.T
+					if withReader {
+						rd = vrt.GoNamed("reader", func() { apply(t, op{k: kQuery, name: A}) })
+					}
+					ok, err := nbtns.NewNameChallenger(t, nil).ChallengeOwnership(s.probe, addrs[0])
+					probed = fmt.Sprintf("(%v, err=%v)", ok, err != nil)
+					if rd != nil {
+						vrt.Join(rd)
+					}
+					after, ctl = dump(t), dump(u)
+					for _, o := range []op{{k: kRefresh, name: A, addr: 0}, {k: kQuery, name: A}, {k: kRelease, name: A, addr: 0}, {k: kQuery, name: A}} {
+						follow = append(follow, o.String()+"="+apply(t, o).String())
+						followCtl = append(followCtl, o.String()+"="+apply(u, o).String())
+					}
+				})
+				if ch.err != nil {
+					panic(ch.err)
+				}
+				r.ObserveS(before + "|" + after + "|" + probed)
+				w := func() string {
+					return fmt.Sprintf("challenger scenario %q (concurrent Query: %v) schedule=%v", s.name, withReader, r.Choices)
+				}
+				c.Evals(1)
+				c.Check("C17/challenger/no-deadlock-no-panic", !out.Deadlock && out.Panic == "", func() string { return w() + " blocked: " + strings.Join(out.Blocked, ",") + " panic: " + out.Panic })
+				if out.Deadlock || out.Panic != "" || out.StepCap {
+					return
+				}
+				c.Check("C17/challenger/a-probe-of-the-network-leaves-the-table-as-it-is", before == after && after == ctl, func() string {
+					return fmt.Sprintf("%s: table before ChallengeOwnership(%s, %s) = %s, after = %s (a table that was not probed: %s); ChallengeOwnership returned %s", w(), s.probe, addrs[0], before, after, ctl, probed)
+				})
+				c.Check("C17/challenger/the-owners-later-operations-behave-as-without-the-probe", strings.Join(follow, "; ") == strings.Join(followCtl, "; "), func() string {
+					return fmt.Sprintf("%s: after the probe: %s; on a table that was not probed: %s", w(), strings.Join(follow, "; "), strings.Join(followCtl, "; "))
+				})
+			}
+			stt, err := ex.Explore()
+			if err != nil {
+				c.Fatalf("schedule replay diverged in the challenger scenario %s: %v", s.name, err)
+			}
+			if stt.CapHit || stt.Divergences > 0 {
+				c.Cap(fmt.Sprintf("challenger scenario %s: cap or %d replay divergences", s.name, stt.Divergences))
+			}
+			c.Add("challenger_schedules", stt.Executions)
+		}
+	}
+}
+
 type concStats struct {
 	scenarios, executions, histories int64
 	maxPoints                        int
@@ -960,6 +1039,7 @@ func run(c *vf.Ctx) {
 		sequentialCapped(c, []string{"A", "B", "C"}, 3, 400000, "3names")
 	}
 
+	challengerProbe(c)
 	two1, three1, two2 := scenarios(c)
 	var st concStats
 	t0 = time.Now()
